@@ -39,7 +39,8 @@ def cases(draw, tier):
     steps = draw(st.lists(alphabet.op_strategy(), min_size=1,
                           max_size=6 if tier == "quick" else 10))
     return {"table": spec, "steps": steps, "phase": draw(st.integers(0, 7)),
-            "blind": draw(st.sampled_from([False, False, True]))}
+            "blind": draw(st.sampled_from([False, False, True])),
+            "sibling": draw(st.sampled_from([False, False, True]))}
 
 
 def strategy(tier):
@@ -203,7 +204,19 @@ def check(case, rec):
     t = gen.build(case["table"], with_history=False)
     seen = set(case["table"]["obs"]) | set(case["table"]["samp"])
     phase = int(case.get("phase", 0))
-    invariant(t, seen, "construction", phase)
+    pinned = []
+    if case.get("sibling"):
+        # the re-labelling idiom: a second table built over the first one's
+        # matrix is a table of its own.  (Nothing reads `t` first: reading
+        # may swap its matrix object.)
+        from biom import Table
+        sib = Table(t.matrix_data,
+                    ["%s'" % i for i in t.ids(axis="observation")],
+                    list(t.ids(axis="sample")))
+        pinned.append(sib)
+        rec.cls("sibling-over-same-matrix")
+    else:
+        invariant(t, seen, "construction", phase)
     applied = 0
     relayout = 0
     live = []
@@ -258,12 +271,13 @@ def check(case, rec):
         # tables left behind stay alive in real programs too: a later
         # in-place operation on a result must not make an earlier table
         # incoherent (shared matrix objects, shared lookups)
-        for j, old_t in enumerate(live):
+        for j, old_t in enumerate(pinned + live):
             if old_t is not receiver and not any(old_t is x
                                                  for x in out.results):
                 try:
                     invariant(old_t, seen, what + " (table left behind %d "
-                              "steps ago)" % (len(live) - j), phase + k + j)
+                              "steps ago)" % (len(pinned + live) - j),
+                              phase + k + j)
                 except Violation as v:
                     v.info.update({"op": op["op"], "left_behind": True})
                     raise
@@ -396,7 +410,7 @@ def enum_chunk(tier, chunk):
     for c in _enum_chunk(tier, chunk):
         yield c
         if len(c["steps"]) > 1:
-            yield dict(c, blind=True)
+            yield dict(c, blind=True, sibling=True)
 
 
 def _enum_chunk(tier, chunk):
